@@ -390,7 +390,9 @@ func (s *State) sto(slot string, addr []*Term, val *Term) {
 
 // plainBase: value of slot(addr) when no store of the chain matches and no frame applies.
 func (s *State) plainBase(heap Heap, h HeapArr, slot string, sort Sort, addr []*Term) *Term {
-	freshAfter := len(addr) > 0 && addr[0].K == KAlloc && isFreshRef(addr[0]) && (h.ver == 0 || (heap.verAlloc[h.ver] > 0 && int(addr[0].I) >= heap.verAlloc[h.ver]))
+	// objects created by the package initialisers or by this activation have their whole history in
+	// the store chain: below it (version 0) they are zero
+	freshAfter := len(addr) > 0 && addr[0].K == KAlloc && (h.ver == 0 || (isFreshRef(addr[0]) && heap.verAlloc[h.ver] > 0 && int(addr[0].I) >= heap.verAlloc[h.ver]))
 	if freshAfter {
 		// object allocated after this base version was created: never written below this point
 		if cp, ok := s.copies[addr[0].I]; ok && len(addr) == 2 && strings.HasPrefix(slot, "elem(") {
